@@ -523,4 +523,42 @@ def newFromH (n cf : Nat) (pol : ArrPol) (h : Heap) (src : Src) : Option (Heap Ã
   | some h' => some (h', h.length)
   | none => none
 
+/-! ### Remove through a whole path (path.go cfgPath.Remove) -/
+
+/-- one step down: the entry a segment names -/
+def stepSeg (h : Heap) (id : Id) : Seg â†’ Option Id
+  | .name k => childNamed h id k
+  | .idx i => childAt h id i
+
+/-- the walk to the node the last segment is removed from: `some none` - an intermediate setting is missing (Remove
+returns false, nothing changes); `none` - the walk meets an unevaluated expression or a null (not described) -/
+def walkRemove (h : Heap) : Id â†’ List Seg â†’ Option (Option Id)
+  | id, [] =>
+    (match h[id]? with
+     | some n => if isDynNode n || isNilBody n then none else some (some id)
+     | none => none)
+  | id, s :: r =>
+    (match h[id]? with
+     | some n =>
+       if isDynNode n then none
+       else match stepSeg h id s with
+         | some c => walkRemove h c r
+         | none => some none
+     | none => none)
+
+/-- Remove(name, idx): the last segment is deleted from the node the others lead to; a node that is no object has nothing
+to remove.  `none`: not described. -/
+def removePathH (h : Heap) (root : Id) (segs : List Seg) : Option Heap :=
+  match segs.reverse with
+  | [] => none
+  | last :: revInit =>
+    match walkRemove h root revInit.reverse with
+    | none => none
+    | some none => some h
+    | some (some cont) =>
+      if (getSub h cont).isNone then some h
+      else match last with
+        | .idx i => some (delAt h cont i)
+        | .name k => some (dictDel h cont k)
+
 end Ucfg.Forest
